@@ -34,7 +34,7 @@ def run_demo(tree, binary):
 if demo:
     print("demo on unpatched: rc=%s %s" % run_demo(base_wt, bb))
     print("demo on patched:   rc=%s %s" % run_demo(wt, pb))
-p = subprocess.run(["./check", ID, "--no-evidence"] + extra, cwd="/verif", text=True, env=dict(os.environ, VERIF_REPO=wt), stdout=subprocess.PIPE, stderr=subprocess.STDOUT)
+p = subprocess.run(["./check", ID[:3], "--no-evidence"] + extra, cwd="/verif", text=True, env=dict(os.environ, VERIF_REPO=wt), stdout=subprocess.PIPE, stderr=subprocess.STDOUT)
 lines = [l for l in p.stdout.splitlines() if l.strip() and not l.startswith("KNOWN-FINDING")]
 print("check rc=%d :: %s" % (p.returncode, " | ".join(lines[-3:])[:700]))
 st = sh("git -C /repo status --short | grep -v '^??'"); 
